@@ -36,6 +36,10 @@ const (
 // suffix matching of a.test.
 var Hosts = []string{"a.test", "b.test", "x.a.test", "y.a.test", "x.b.test", "w.x.a.test", "xa.test"}
 
+// EdgeHosts are minimal names no rule of the grammar matches: the root and a
+// bare top-level label.  They are asked now and then; the verdict must be none.
+var EdgeHosts = []string{"", "test"}
+
 // Targets is the pool of CNAME-rewrite targets and block-page hosts; it is
 // disjoint from Hosts, so a rewrite of a host to itself is never generated.
 var Targets = []string{"t1.cn.test", "t2.cn.test", "page.cn.test"}
@@ -155,10 +159,33 @@ func (r Rule) IsRewrite() bool {
 	return r.Kind == KRwIP || r.Kind == KRwCNAME || r.Kind == KRwRcode
 }
 
+// bareAddr reports whether r is a bare IP address.  urlfilter does not take such
+// a line for a host rule (it is not a domain name) but for a network rule
+// without anchors, that is, a substring pattern.
+func (r Rule) bareAddr() bool {
+	if r.Kind != KBare {
+		return false
+	}
+
+	_, err := netip.ParseAddr(r.D)
+
+	return err == nil
+}
+
+// isNetBlock reports whether r is a blocking network rule (as opposed to a
+// hosts-style rule).
+func (r Rule) isNetBlock() bool {
+	return r.Kind == KBlock || r.bareAddr()
+}
+
 // hostMatch is the meaning of the pattern part.
 func (r Rule) hostMatch(host string) bool {
 	switch r.Kind {
 	case KHosts, KBare:
+		if r.bareAddr() {
+			return strings.Contains(host, r.D)
+		}
+
 		return host == r.D
 	default:
 		if r.Exact {
@@ -389,7 +416,10 @@ func rewriteOutcomes(l *List, host string, qt uint16, byHost bool) (outs []Outco
 		}
 	}
 
-	if len(ipRules) > 0 {
+	// processDNSRewriteRules documents that a new-CNAME rule and a non-NOERROR
+	// rcode rule both have priority over address values, so addresses are an
+	// acceptable outcome only when no such rule matches.
+	if len(ipRules) > 0 && len(other) == 0 {
 		o := Outcome{Kind: ORwIP, List: l.ID}
 		if byHost {
 			o.Rules = []string{host}
@@ -413,20 +443,32 @@ type basicRes struct {
 	allow, block map[*List][]string
 }
 
+// basic implements "network rules always have higher priority" (urlfilter's
+// DNSEngine and URLFilterResult.ToInternal): hosts-style and bare-host rules
+// are candidates for the reported block only when no network block rule
+// matches anywhere.
 func basic(srcs []*List, host string, qt uint16) (b basicRes) {
 	b = basicRes{allow: map[*List][]string{}, block: map[*List][]string{}}
+	hosts := map[*List][]string{}
 	for _, l := range srcs {
 		for _, r := range l.Rules {
 			if r.IsRewrite() || !r.Matches(host, qt) {
 				continue
 			}
 
-			if r.Kind == KAllow {
+			switch {
+			case r.Kind == KAllow:
 				b.allow[l] = append(b.allow[l], l.reported(r))
-			} else {
+			case r.isNetBlock():
 				b.block[l] = append(b.block[l], l.reported(r))
+			default:
+				hosts[l] = append(hosts[l], l.reported(r))
 			}
 		}
+	}
+
+	if len(b.block) == 0 {
+		b.block = hosts
 	}
 
 	return b
